@@ -37,7 +37,7 @@ pub open spec fn occ2(s: Seq<Vec<WitnessId>>, w: WitnessId) -> int decreases s.l
 /// how often the relation of `op` READS slot w as an ALU operand or a non-primitive input (what `use_counts` is meant to count)
 pub open spec fn op_uses<F>(op: Op<F>, w: WitnessId) -> int {
     match op {
-        Op::Alu { a, b, c, .. } => b2i(a == w) + b2i(b == w) + b2i(c == Some(w)),
+        Op::Alu { kind, a, b, c, intermediate_out, .. } => b2i(a == w) + b2i(b == w) + b2i(c == Some(w)) + b2i(kind is HornerAcc && intermediate_out == Some(w)),
         Op::NonPrimitiveOpWithExecutor { inputs, .. } => occ2(inputs@, w),
         _ => 0,
     }
@@ -72,6 +72,10 @@ pub open spec fn npo_in_elems<F>(op: Op<F>) -> int { match op { Op::NonPrimitive
 impl<F: Field> MulAddFusion<F> {
     pub open spec fn const_at(&self, w: WitnessId) -> bool { cat(self.defs@, w) }
     pub open spec fn defs_inv(&self, ops: Seq<Op<F>>, n: int) -> bool { dinv(self.defs@, ops, n) }
+    /// the analysis tables were computed from this op list
+    pub open spec fn describes(&self, ops: Seq<Op<F>>) -> bool {
+        dinv(self.defs@, ops, ops.len() as int) && forall|w: WitnessId| #[trigger] cnt(self.use_counts@, w) == uses_upto(ops, ops.len() as int, w)
+    }
 }
 } // verus!
 '''
@@ -150,9 +154,11 @@ def build():
     su.rewrite('R5', 'for op in ops {', 'for oi_ in 0..ops.len() { let op = &ops[oi_];')
     for v in ('a', 'b', 'c'):
         su.rewrite('R7', f'*self.use_counts.entry(*{v}).or_default() += 1;',
-                   f'{{ proof {{ assert(cnt(uc0, *{v}) <= 0x10_0003 * oi_); }} let cur_ = match self.use_counts.get({v}) {{ Some(v_) => *v_, None => 0 }}; self.use_counts.insert(*{v}, cur_ + 1); }}')
+                   f'{{ proof {{ assert(cnt(uc0, *{v}) <= 0x10_0004 * oi_); }} let cur_ = match self.use_counts.get({v}) {{ Some(v_) => *v_, None => 0 }}; self.use_counts.insert(*{v}, cur_ + 1); }}')
+    su.rewrite('R7', 'if *kind == AluOpKind::HornerAcc && let Some(acc) = intermediate_out { *self.use_counts.entry(*acc).or_default() += 1; }',
+               'if *kind == AluOpKind::HornerAcc { if let Some(acc) = intermediate_out { proof { assert(cnt(uc0, *acc) <= 0x10_0004 * oi_); } let cur_ = match self.use_counts.get(acc) { Some(v_) => *v_, None => 0 }; self.use_counts.insert(*acc, cur_ + 1); } }')
     su.rewrite('R5', 'for &id in inputs.iter().flatten() { *self.use_counts.entry(id).or_default() += 1; }',
-               'for gi_ in 0..inputs.len() { for wi_ in 0..inputs[gi_].len() { let id = inputs[gi_][wi_]; let ghost m_prev = self.use_counts@; proof { assert(cnt(uc0, id) <= 0x10_0003 * oi_); lemma_occ2_bound(gdone, id); lemma_occ_bound(acc, id); } let cur_ = match self.use_counts.get(&id) { Some(v_) => *v_, None => 0 }; proof { assert(cur_ as int == cnt(self.use_counts@, id)); assert(acc.len() == wi_); } self.use_counts.insert(id, cur_ + 1); } }')
+               'for gi_ in 0..inputs.len() { for wi_ in 0..inputs[gi_].len() { let id = inputs[gi_][wi_]; let ghost m_prev = self.use_counts@; proof { assert(cnt(uc0, id) <= 0x10_0004 * oi_); lemma_occ2_bound(gdone, id); lemma_occ_bound(acc, id); } let cur_ = match self.use_counts.get(&id) { Some(v_) => *v_, None => 0 }; proof { assert(cur_ as int == cnt(self.use_counts@, id)); assert(acc.len() == wi_); } self.use_counts.insert(id, cur_ + 1); } }')
     su.requires('fresh_counts', 'old(self).use_counts@ == Map::<WitnessId, usize>::empty()')
     su.requires('realistic_sizes', 'ops@.len() < 0x1000_0000 && forall|k: int| 0 <= k < ops@.len() ==> npo_in_elems(#[trigger] ops@[k]) < 0x10_0000')
     su.ensures('counts_every_relation_read', 'forall|w: WitnessId| #[trigger] cnt(final(self).use_counts@, w) == uses_upto(ops@, ops@.len() as int, w)')
@@ -160,20 +166,20 @@ def build():
     su.loop('for oi_ in 0..ops.len()', invariants=[
         ('frame', 'self.defs == old(self).defs && self.backwards_computed == old(self).backwards_computed && ops@.len() < 0x1000_0000 && forall|k: int| 0 <= k < ops@.len() ==> npo_in_elems(#[trigger] ops@[k]) < 0x10_0000'),
         ('count', 'forall|w: WitnessId| #[trigger] cnt(self.use_counts@, w) == uses_upto(ops@, oi_ as int, w)'),
-        ('bound', 'forall|w: WitnessId| #[trigger] cnt(self.use_counts@, w) <= 0x10_0003 * oi_'),
+        ('bound', 'forall|w: WitnessId| #[trigger] cnt(self.use_counts@, w) <= 0x10_0004 * oi_'),
     ])
     su.after('let op = &ops[oi_];', 'let ghost uc0 = self.use_counts@; let ghost mut acc: Seq<WitnessId> = Seq::empty(); let ghost mut gdone: Seq<Vec<WitnessId>> = Seq::empty();')
     su.loop('for gi_ in 0..inputs.len()', invariants=[
         ('frame', 'self.defs == old(self).defs && self.backwards_computed == old(self).backwards_computed && oi_ < ops@.len() && ops@.len() < 0x1000_0000 && total_len(inputs@) < 0x10_0000'),
         ('done', 'gdone == inputs@.take(gi_ as int) && total_len(gdone) <= total_len(inputs@)'),
         ('count', 'forall|w: WitnessId| #[trigger] cnt(self.use_counts@, w) == cnt(uc0, w) + occ2(gdone, w)'),
-        ('bound', 'forall|w: WitnessId| #[trigger] cnt(uc0, w) <= 0x10_0003 * oi_'),
+        ('bound', 'forall|w: WitnessId| #[trigger] cnt(uc0, w) <= 0x10_0004 * oi_'),
     ])
     su.loop('for wi_ in 0..inputs[gi_].len()', invariants=[
         ('frame', 'self.defs == old(self).defs && self.backwards_computed == old(self).backwards_computed && oi_ < ops@.len() && ops@.len() < 0x1000_0000 && total_len(inputs@) < 0x10_0000 && gi_ < inputs@.len()'),
         ('done', 'gdone == inputs@.take(gi_ as int) && acc == inputs@[gi_ as int]@.take(wi_ as int) && total_len(gdone) + inputs@[gi_ as int]@.len() <= total_len(inputs@)'),
         ('count', 'forall|w: WitnessId| #[trigger] cnt(self.use_counts@, w) == cnt(uc0, w) + occ2(gdone, w) + occ(acc, w)'),
-        ('bound', 'forall|w: WitnessId| #[trigger] cnt(uc0, w) <= 0x10_0003 * oi_'),
+        ('bound', 'forall|w: WitnessId| #[trigger] cnt(uc0, w) <= 0x10_0004 * oi_'),
     ])
     su.before('for wi_ in 0..inputs[gi_].len()', 'proof { acc = Seq::empty(); lemma_total_len_take(inputs@, gi_ as int); assert(inputs@[gi_ as int]@.take(0) =~= Seq::<WitnessId>::empty()); }')
     su.at_loop_end('for wi_ in 0..inputs[gi_].len()', '''proof {
@@ -199,9 +205,9 @@ def build():
     su.at_loop_end('for oi_ in 0..ops.len()', '''proof {
             lemma_occ_bound_all();
             match ops@[oi_ as int] { Op::NonPrimitiveOpWithExecutor { inputs, .. } => { assert(inputs@.take(inputs@.len() as int) =~= inputs@); } _ => {} }
-            assert forall|w: WitnessId| #[trigger] cnt(self.use_counts@, w) == uses_upto(ops@, oi_ as int + 1, w) && cnt(self.use_counts@, w) <= 0x10_0003 * (oi_ + 1) by {
+            assert forall|w: WitnessId| #[trigger] cnt(self.use_counts@, w) == uses_upto(ops@, oi_ as int + 1, w) && cnt(self.use_counts@, w) <= 0x10_0004 * (oi_ + 1) by {
                 assert(cnt(uc0, w) == uses_upto(ops@, oi_ as int, w));
-                assert(cnt(uc0, w) <= 0x10_0003 * oi_);
+                assert(cnt(uc0, w) <= 0x10_0004 * oi_);
                 lemma_occ2_bound(match ops@[oi_ as int] { Op::NonPrimitiveOpWithExecutor { inputs, .. } => inputs@, _ => Seq::empty() }, w);
             }
         }''')
@@ -221,25 +227,23 @@ def build():
     # Const arm
     sd.after('self.defs .insert(*out, IndexedDef::new(idx, OpDef::Const(*val)));', 'proof { lemma_const(d0, ops@, n, *out, *val); }')
     # Mul / Add arms (backwards step, then the out def)
-    sd.after('self.track_backwards_op(idx, *out, *b);', 'proof { lemma_backwards(d0, ops@, n, *out, *b); } let ghost d1 = self.defs@;', nth=0)
-    sd.after('self.insert_def(*out, idx, OpDef::Mul { a: *a, b: *b });', '''proof {
-                    lemma_ins(d1, ops@, n, wnone(), true, *out, OpDef::Mul { a: *a, b: *b });
+    ARM = '''proof {
+                    let dfin = self.defs@;
+                    if cat(d1, *out) { lemma_ins(d1, ops@, n, wnone(), true, *out, OpDef::<F>::Other); }
+                    else { let dd = dfin[*out].def; lemma_ins(d1, ops@, n, wnone(), true, *out, dd); assert(dfin =~= ins_uc(d1, *out, n as usize, dd)); }
                     assert forall|w: WitnessId| #[trigger] definer(ops@[n], w) implies wadd(wnone(), *out)(w) by {}
                     lemma_close(self.defs@, ops@, n, wadd(wnone(), *out), true);
-                }''')
-    sd.after('self.track_backwards_op(idx, *out, *b);', 'proof { lemma_backwards(d0, ops@, n, *out, *b); } let ghost d1 = self.defs@;', nth=1)
-    sd.after('self.insert_def(*out, idx, OpDef::Other);', '''proof {
-                    lemma_ins(d1, ops@, n, wnone(), true, *out, OpDef::<F>::Other);
-                    assert forall|w: WitnessId| #[trigger] definer(ops@[n], w) implies wadd(wnone(), *out)(w) by {}
-                    lemma_close(self.defs@, ops@, n, wadd(wnone(), *out), true);
-                }''', nth=0)
+                }'''
+    for arm in (0, 1):   # Mul arm, Add arm: backwards step, then the out def (whatever def the code records)
+        sd.after('self.track_backwards_op(idx, *out, *b);', 'proof { lemma_backwards(d0, ops@, n, *out, *b); } let ghost d1 = self.defs@;', nth=arm)
+        sd.at_enclosing_block_end('self.track_backwards_op(idx, *out, *b);', ARM, nth=arm)
     # other Alu / Public arm
-    sd.after('self.insert_def(*out, idx, OpDef::Other);', '''proof {
+    sd.at_enclosing_block_end('Op::Alu { out, .. } | Op::Public { out, .. } => {', '''proof {
                     lemma_open(d0, ops@, n);
                     lemma_ins(d0, ops@, n, wnone(), false, *out, OpDef::<F>::Other);
                     assert forall|w: WitnessId| #[trigger] definer(ops@[n], w) implies wadd(wnone(), *out)(w) by {}
                     lemma_close(self.defs@, ops@, n, wadd(wnone(), *out), false);
-                }''', nth=1)
+                }''')
     # NPO arm
     sd.before('for gi_ in 0..outputs.len()', 'proof { lemma_open(d0, ops@, n); }')
     sd.loop('for gi_ in 0..outputs.len()', invariants=[
@@ -278,6 +282,24 @@ def build():
                         lemma_close(self.defs@, ops@, n, ex, false);
                     }''')
 
+    # ---------------------------------------------------------------- try_fuse
+    tf = u.extract(FM, IMPL, 'try_fuse', 'MulAddFusion::try_fuse')
+    tf.rewrite('R6', 'self.def_idx(&addend).is_some_and(|i| i >= add_idx)', '(match self.def_idx(&addend) { Some(i) => i >= add_idx, None => false })')
+    tf.rewrite('R6', 'self .backwards_computed .get(&addend) .is_some_and(|&i| i >= mul_idx)', '(match self.backwards_computed.get(&addend) { Some(i) => *i >= mul_idx, None => false })')
+    tf.rewrite('R6', 'self.def_idx(&mul_b).is_some_and(|i| i >= mul_idx)', '(match self.def_idx(&mul_b) { Some(i) => i >= mul_idx, None => false })')
+    tf.ensures('candidate_is_a_sound_fusion', '''ret matches Some((mul_idx, muladd, ad)) ==> ad == addend && forall|ops: Seq<Op<F>>| #![trigger self.describes(ops)]
+            self.describes(ops) && 0 <= add_idx < ops.len()
+            && (ops[add_idx as int] matches Op::Alu { kind, a: x, b: y, c, out: o, .. } && kind is Add && c.is_none() && o == out && ((x == mul_result && y == addend) || (y == mul_result && x == addend)))
+            ==> fusable(ops, add_idx as int, mul_idx as int, muladd)''')
+    tf.bind_tail('res_', '''proof {
+            assert forall|ops: Seq<Op<F>>| #![trigger self.describes(ops)] self.describes(ops) && 0 <= add_idx < ops.len()
+                && (ops[add_idx as int] matches Op::Alu { kind, a: x, b: y, c, out: o, .. } && kind is Add && c.is_none() && o == out && ((x == mul_result && y == addend) || (y == mul_result && x == addend)))
+                implies fusable(ops, add_idx as int, mul_idx as int, muladd) by {
+                assert(cnt(self.use_counts@, mul_result) == uses_upto(ops, ops.len() as int, mul_result));
+                lemma_candidate_is_fusable(self.defs@, ops, add_idx as int, mul_result, addend, out, muladd);
+            }
+        }''')
+
     u.text('''verus! {
 pub proof fn lemma_occ_bound(s: Seq<WitnessId>, w: WitnessId) ensures 0 <= occ(s, w) <= s.len() decreases s.len() { if s.len() > 0 { lemma_occ_bound(s.drop_last(), w); } }
 pub proof fn lemma_occ_bound_all() ensures forall|s: Seq<WitnessId>, w: WitnessId| 0 <= #[trigger] occ(s, w) <= s.len()
@@ -295,7 +317,7 @@ pub proof fn lemma_total_len_take(v: Seq<Vec<WitnessId>>, k: int)
 }
 pub proof fn lemma_total_len_nonneg(v: Seq<Vec<WitnessId>>) ensures total_len(v) >= 0 decreases v.len() { if v.len() > 0 { lemma_total_len_nonneg(v.drop_last()); } }
 impl<F: Field> MulAddFusion<F> {''')
-    for f in (di, isc, us, ib, ind, tb, su, sd):
+    for f in (di, isc, us, ib, ind, tb, su, sd, tf):
         u.emit(f)
     u.text('}\n}')
     return u
